@@ -89,9 +89,17 @@ def run(ctx):
     ctx.extra['exhaustive_scope'] = 'every read and write call position of each counted filter run x each error code'
 
     # ---- real faults
+    def target_pid(pid):
+        """The launcher's child if the process is runmon, else the process itself."""
+        try:
+            kids = open('/proc/%d/task/%d/children' % (pid, pid)).read().split()
+            return int(kids[0]) if kids else pid
+        except Exception:
+            return pid
+
     def closed_pipe(direction, args, data, k, ignore):
         argv = ([runmon, '-i', '13', '--'] if ignore else []) + [lb] + args
-        p = subprocess.Popen(argv, stdin=subprocess.PIPE, stdout=subprocess.PIPE, stderr=subprocess.PIPE)
+        p = subprocess.Popen(argv, stdin=subprocess.PIPE, stdout=subprocess.PIPE, stderr=subprocess.PIPE, start_new_session=True)
         import threading
         def feed():
             try:
@@ -113,7 +121,7 @@ def run(ctx):
         except subprocess.TimeoutExpired:
             dead, dump = core.judge_hang(p.pid)
             r.timed_out = True; r.deadlock = dead; r.gdb = dump
-            p.kill(); p.wait()
+            core.kill_group(p); p.wait()
         r.err = p.stderr.read(); p.stderr.close()
         if not r.timed_out:
             if p.returncode < 0:
